@@ -154,12 +154,15 @@ def _two_programs(tier: str):
                 continue
             for gaps in itertools.product((0.0, 0.5, 1.0, 3.0), repeat=n - 1):
                 yield {"two": "".join(who), "gaps": list(gaps)}
+                if n <= 3:
+                    # two functions of the same name with the SAME settings: still two throttles
+                    yield {"two": "".join(who), "gaps": list(gaps), "same_cfg": True}
 
 
 def _two_throttles(program, ch: Chooser) -> Result:
     w = World(ch)
     viols: list[dict] = []
-    cfg = {"s": (2, 4.0), "f": (1, 1.0)}
+    cfg = {"s": (2, 4.0), "f": (1, 1.0)} if not program.get("same_cfg") else {"s": (1, 1.0), "f": (1, 1.0)}
     starts: dict[str, list] = {"s": [], "f": []}
     arrivals: dict[str, list] = {"s": [], "f": []}
     results: dict[int, tuple] = {}
@@ -212,6 +215,8 @@ def _two_throttles(program, ch: Chooser) -> Result:
         for i, t in tasks.items():
             if t.done() and not t.cancelled() and t.exception() is not None:
                 viols.append(viol("outcome", "two-throttles/raises", "the function's own outcome", repr(t.exception())[:120]))
+            elif t.done() and not t.cancelled() and results.get(i) != (program["two"][i], i):
+                viols.append(viol("outcome", "two-throttles/not-own", [program["two"][i], i], list(results.get(i) or ())))
         delayed = sum(1 for which in cfg for (i, t), (_, a) in zip(starts[which], arrivals[which]) if t > a)
         return Result(f"two/{len(times)}/delayed={min(delayed, 2)}", delayed > 0, viols[:4], {"starts": starts, "arrivals": arrivals})
     finally:
